@@ -851,7 +851,8 @@ fn int_subtype_contains(allowed: bool, values: &Vec<N>, it: usize) -> bool {
 }
 fn int_subtype_max(allowed: bool, values: &Vec<N>) -> i64 {
     if !allowed {
-        return -1;
+        // every index except the listed ones: there is no largest one
+        return i64::MAX;
     }
     let mut max = -1;
     for it in values {
